@@ -542,6 +542,10 @@ def _rdcomma(fiter, s, conchar, blank, tolist, keep_name):
                 vals.append(v)
             else:
                 vals.append(blank)
+        if start_field == 0:
+            # the retained card name is not a data field: do not
+            # count it when padding short lines with blanks
+            i -= 1
         # first field for continuation cards will never be retained:
         start_field = 1
         s = fiter.send(False)
